@@ -6,7 +6,8 @@ from props import nutslib as N
 
 ID = "C03"
 LEVEL = "proof"
-COQ_HEADER = "From MiniMcmc Require Import Model.NUTSEval."
+COQ_HEADER = "From MiniMcmc Require Import Model.NUTSEval Model.FindEps."
+LMARK = -1000000011
 RULE = ("NUTSChain::step under the transition-trace hook (momentum, joint0, log u, eps, per doubling: direction uniform, every "
         "leaf with position/momentum/joint, every merge uniform, acceptance uniform) on Gaussians of dimension 1..8 with random "
         "precision matrices, DiffableGaussian2D, Rosenbrock2D, a funnel and steep quartics driven to divergence, with step sizes "
@@ -100,7 +101,36 @@ def coq_term(case, out):
     trs = [t for t in transitions(case, out) if usable(t) and not N.ambiguous(t, case["f"])]
     if not trs:
         return None
-    return " ++ [-1000000007] ++ ".join("(%s)" % N.coq_term(t, case["f"]) for t in trs)
+    t = " ++ [-1000000007] ++ ".join("(%s)" % N.coq_term(t, case["f"]) for t in trs)
+    lv = leaf_samples(case, out)
+    if lv:
+        tg = case["target"]
+        d = tg["d"]
+        q = lambda b: N.dy(N.bf(b))
+        A = "[" + "; ".join("[" + "; ".join(N.dy(C.f64_bits_to_float(tg["prec"][i * d + j])) for j in range(d)) + "]" for i in range(d)) + "]"
+        t += " ++ [%s] ++ " % C.z(LMARK) + " ++ ".join(
+            "(nuts_leaf_eval %s %s [%s] [%s])" % (A, N.dy(e), "; ".join(q(b) for b in prev["position"]), "; ".join(q(b) for b in prev["momentum"]))
+            for (e, prev, leaf) in lv)
+    return t
+
+
+def leaf_samples(case, out):
+    """(signed step, previous trajectory point, leaf) for the first and last leaf of every doubling of the usable
+    transitions on Gaussian targets: evaluated by Model.FindEps.nuts_leaf_eval (exact leapfrog step and joint density)"""
+    if case["target"]["kind"] != "gaussprec" or "runs" not in out:
+        return []
+    res = []
+    for tr in [t for t in transitions(case, out) if usable(t) and not N.ambiguous(t, case["f"])]:
+        table, per = N.build_table(tr)
+        eps = N.bf(tr["start"]["epsilon"])
+        for idxs in per:
+            for i in sorted({idxs[0], idxs[-1]}) if idxs else []:
+                v = 1 if i > 0 else -1
+                prev, leaf = table[i - v], table[i]
+                if N.finite_entry(prev) and N.finite_entry(leaf) and \
+                        max(abs(N.bf(b)) for b in prev["position"] + prev["momentum"]) < 1e6 and math.isfinite(N.bf(leaf["joint"])):
+                    res.append((eps * v, prev, leaf))
+    return res[:24]
 
 
 def split_model(model):
@@ -123,6 +153,24 @@ def compare(case, out, model):
     if model is None:
         return None
     trs = [t for t in transitions(case, out) if usable(t) and not N.ambiguous(t, case["f"])]
+    if LMARK in model:
+        k = model.index(LMARK)
+        model, lm = model[:k], model[k + 1:]
+        d = case["target"]["d"]
+        tol = Fraction(1, 2 ** 11) if case["f"] == "f32" else Fraction(1, 2 ** 13)
+        pos = 0
+        for (e, prev, leaf) in leaf_samples(case, out):
+            vals = [Fraction(lm[pos + 2 * j], lm[pos + 2 * j + 1]) for j in range(2 * d + 1)]
+            pos += 2 * (2 * d + 1)
+            got = [Fraction(N.bf(b)) for b in leaf["position"] + leaf["momentum"]] + [Fraction(N.bf(leaf["joint"]))]
+            sc = 1 + max(abs(t) for t in vals[:2 * d] + [Fraction(N.bf(b)) for b in prev["position"] + prev["momentum"]])
+            for j, (a, b) in enumerate(zip(got, vals)):
+                scale = sc if j < 2 * d else 1 + abs(vals[-1]) + sum(t * t for t in vals[d:2 * d])
+                if abs(a - b) > tol * scale * 4:
+                    return "leaf after a step of %.6g from %s: %s %.9g, exact leapfrog / joint density (nuts_leaf_eval) gives %.9g" % (
+                        e, [N.bf(b) for b in prev["position"]], "coordinate %d" % j if j < 2 * d else "joint", float(a), float(b))
+        if pos != len(lm):
+            return "internal: leaf evaluation misaligned"
     parts = split_model(model)
     if len(parts) != len(trs):
         return "model output malformed"
